@@ -1,8 +1,9 @@
 ------------------------------- MODULE HolSem -------------------------------
 (* Finite standard models of HOL: every type variable is a finite non-empty set, function types are FULL function spaces. *)
+(* A type assignment ta maps type variables <<"tv"|"stv", name>> to finite non-empty SETS.                               *)
 EXTENDS HolTerms, SequencesExt
 RECURSIVE Dom(_,_)
-Dom(T, ta) == IF T[1] \in {"tv","stv"} THEN 1..ta[<<T[1],T[2]>>]
+Dom(T, ta) == IF T[1] \in {"tv","stv"} THEN ta[<<T[1],T[2]>>]
               ELSE IF T = BoolT THEN BOOLEAN
               ELSE IF IsFun(T) THEN [Dom(T[3][1], ta) -> Dom(T[3][2], ta)]
               ELSE {"?"}
@@ -44,10 +45,11 @@ HoldsAll(th, symSeq, i, va, ta) ==
   ELSE \A d \in Dom(symSeq[i][3], ta) : HoldsAll(th, symSeq, i + 1, (symSeq[i] :> d) @@ va, ta)
 SeqSyms(th) == UNION { SymsOf(x) : x \in th.h } \cup SymsOf(th.c)
 SeqTVars(th) == UNION { TVarsOfTerm(x) : x \in th.h } \cup TVarsOfTerm(th.c)
+Carriers(N) == { 1..k : k \in 1..N }
 \* validity of a sequent [h |-> set, c |-> term] in all models with type-variable sizes 1..N
 Valid(th, N) ==
   LET symSeq == SetToSeq(SeqSyms(th)) IN
-  \A ta \in [SeqTVars(th) -> 1..N] : HoldsAll(th, symSeq, 1, <<>>, ta)
+  \A ta \in [SeqTVars(th) -> Carriers(N)] : HoldsAll(th, symSeq, 1, <<>>, ta)
 \* size guard: function spaces are capped so that evaluation stays tractable
 RECURSIVE TOrder(_)
 TOrder(T) == IF IsFun(T) THEN LET a == TOrder(T[3][1]) + 1 b == TOrder(T[3][2]) IN IF a > b THEN a ELSE b ELSE 0
